@@ -1497,7 +1497,7 @@ _with("C03", [F_SCHED], lambda tier, rng: [c for c in gen_sched(tier, random.Ran
       "sched: creation reading the blob through fragmenting / interrupting readers.")
 _with("C03", [F_SHORTW], lambda tier, rng: [c for c in gen_shortw(tier, random.Random(rng.randrange(1 << 30))) if c[1][4] == 2],
       "shortw: outboard_post_order writing into sinks that take few bytes per call or fill up (the error must surface).")
-for _p in ("C05", "C08"):
+for _p in ("C04", "C05", "C08"):
     _with(_p, [F_ENCODE], lambda tier, rng: gen_odd_providers(tier, random.Random(rng.randrange(1 << 30))),
           "encode: providers whose data file is a group-aligned prefix of the blob, or longer than the blob, with the complete outboard: "
           "all five encoders send exactly what a complete provider would, up to the first group they do not hold.")
